@@ -606,8 +606,43 @@ func seqReadCases(text []byte, level int, r *rng.R) []rcase {
 // ---------------------------------------------------------------- the pass
 
 type seqTarget struct {
-	S  *sample
-	LE string
+	S     *sample
+	LE    string
+	Light bool // only the fault-at-offset sweep: the file is there to reach one call site with a failing flush
+}
+
+// lines: the records Write emits before the padding.
+func (cs callSeq) lines() int {
+	n := 2
+	for _, l := range cs.Batch {
+		if l.Line != "" {
+			n++
+		}
+	}
+	for _, l := range cs.IAT {
+		if l.Line != "" {
+			n++
+		}
+	}
+	return n
+}
+
+// advOfLines draws ADV files until one has exactly `lines` records: with 43 (LF) / 42 (CRLF)
+// records the `Available() < 94` flush of writeLine happens inside the call that writes
+// the file control, the only way to make the `&file.ADVControl` call site see an error.
+func advOfLines(r *rng.R, lines int) *sample {
+	for try := 0; try < 3000; try++ {
+		s := genSample(fmt.Sprintf("ADV:%d-lines", lines), func() *ach.File {
+			return gen.FileOfSEC(r.Fork(), "ADV", gen.Opts{MinBatches: 1, MaxBatches: 2, MaxEntries: 40})
+		})
+		if s == nil {
+			continue
+		}
+		if f, _ := parse(s.Text); f != nil && callSequence(f).lines() == lines {
+			return s
+		}
+	}
+	return nil
 }
 
 func seqTargets(level int, r *rng.R) []seqTarget {
@@ -617,7 +652,7 @@ func seqTargets(level int, r *rng.R) []seqTarget {
 			return
 		}
 		for _, le := range les {
-			out = append(out, seqTarget{s, le})
+			out = append(out, seqTarget{s, le, false})
 		}
 	}
 	adv := genSample("ADV", func() *ach.File { return gen.ADVFile(r.Fork()) })
@@ -630,6 +665,20 @@ func seqTargets(level int, r *rng.R) []seqTarget {
 	add(fixture("test/testdata/iat-debit.ach"), "\r\n")
 	add(genPPD([]int{2, 1}, true), "\n")
 	add(genPPD([]int{r.Range(45, 58)}, false), "\n") // a mid-stream flush inside writeBatch
+	// files whose 43rd (LF) / 42nd (CRLF) record is the file control, ADV and not, and an IAT file
+	// long enough for a flush inside writeIATBatch: each reaches one call site of Write with a failing flush
+	light := func(s *sample, le string) {
+		if s != nil {
+			out = append(out, seqTarget{s, le, true})
+		}
+	}
+	light(advOfLines(r, 43), "\n")
+	light(advOfLines(r, 42), "\r\n")
+	light(genPPD([]int{39}, false), "\n")
+	light(genPPD([]int{38}, false), "\r\n")
+	light(genSample("IAT:long", func() *ach.File {
+		return gen.FileOfSEC(r.Fork(), "IAT", gen.Opts{Addenda: true, MinBatches: 3, MaxBatches: 3, MaxEntries: 3})
+	}), "\n")
 	if level == 0 {
 		return out
 	}
@@ -705,6 +754,9 @@ func seqPass(args []string) {
 		if *level > 0 {
 			stride = 3
 		}
+		if tg.Light {
+			stride *= 4
+		}
 		for k := 0; k <= len(t.Clean); k++ {
 			fls = append(fls, wfault{"hard", true, k})
 			for i, kind := range sinkKinds {
@@ -734,6 +786,10 @@ func seqPass(args []string) {
 			if key, what := judgeWrite(t, fl, obs[i]); key != "" {
 				emit(failure{"fail", key, what, caseW{Side: "write", File: s.Name, TextHex: hx.Enc(string(s.Text)), Bypass: s.Bypass, LE: leName(le), Kind: fl.Kind, Transient: fl.Transient, K: fl.K, Len: len(t.Clean)}, obs[i]})
 			}
+		}
+
+		if tg.Light {
+			continue
 		}
 
 		// (2) scripted sink
